@@ -518,3 +518,22 @@ def control_type_table(repo):
     holder._rel = CTRL
     holder._qual = "Control." + holder.name
     return table, default, holder, init_ok
+
+
+def options_class_defaults(repo, cls):
+    """constant keyword defaults of wntr/network/options.py <cls>.__init__ (read from the source), e.g. TimeOptions -> {'duration': 0.0, ...}.
+    Mock worlds use them so that a repository function reading another option field of an existing group still finds the field."""
+    import ast as _ast
+    try:
+        fn = repo.func("wntr/network/options.py", cls + ".__init__")
+    except AnchorError:
+        return {}
+    a = fn.args
+    names = [x.arg for x in a.args]
+    out = {}
+    for nm, dv in zip(names[len(names) - len(a.defaults):], a.defaults):
+        try:
+            out[nm] = _ast.literal_eval(dv)
+        except (ValueError, SyntaxError):
+            pass
+    return out
